@@ -6,6 +6,9 @@ from vf.ref import tx_ref as TR
 from vf.runner import Acc, filler
 
 PROPERTY = "C13"
+# E6: seq_ops() indices of the operations that are interrupted at every line (vf/seqexplore.interrupted); probes = the whole alphabet
+INTERRUPT_X = [2, 4]
+INTERRUPT_PROBES = None
 CONCUR_FILES = ('bits/script/utils.py', 'bits/utils.py')
 # (thread a, thread b), warm-up: indices into seq_ops() - the ordinary single-case checks run concurrently (vf/concur.py)
 CONCUR_SCEN = [((0, 1), ()), ((4, 4), (1,)), ((2, 9), (6,)), ((10, 11), (7,)), ((0, 1, 4), ())]   # the last one: three threads
@@ -21,6 +24,7 @@ ASSUMPTIONS = ["vf/ref/script_ref.py push rules (minimal push for the length); o
 OBLIGATIONS = {
     "concurrent_calls": "interleavings of two concurrent calls (single-case checks in two threads, cold and after warm-up calls)",
     "long_history": "operations executed in one long history (>= 1000 distinct operations, forward / forward / reverse)",
+    "interrupted_calls": "interruption points explored (an earlier call cut short by an asynchronous exception, then ordinary calls)",
     "history_sequences": "operation sequences (non-initial process states) explored",
     "opcode_name_lookalike": "a data item whose hex spelling equals an opcode name (with or without OP_ prefix, any case)",
     "long_program": "a program / witness stack of more than 900 items",
@@ -225,6 +229,9 @@ def run_case(kind, case):
     if kind == "concurcase":
         from vf import concur
         return concur.replay_cases(run_case, PROPERTY, case, CONCUR_FILES)
+    if kind == "interrupted":
+        from vf import seqexplore
+        return seqexplore.replay_interrupted(run_case, case)
     if kind == "seq":
         from vf import seqexplore
         return seqexplore.replay(run_case, case)
@@ -267,6 +274,8 @@ def jobs(tier, seed):
     js += seq_jobs(4, weight=3)
     from vf.runner import long_jobs
     js += long_jobs()
+    from vf.runner import interrupt_jobs
+    js += interrupt_jobs(len(INTERRUPT_X))
     from vf.runner import concur_jobs
     js += concur_jobs(len(CONCUR_SCEN))
     return js
@@ -281,6 +290,11 @@ def run_job(job):
     if job["part"] == "longhist":
         from vf.runner import run_long_job, default_long_ops
         return run_long_job(job, default_long_ops(seq_ops, job), run_case)
+    if job["part"] == "interrupted":
+        from vf.runner import run_interrupt_job
+        ops = [o for o in seq_ops(dict(job, part="interrupted", shard=[0, 1]))]
+        probes = ops if INTERRUPT_PROBES is None else [ops[i] for i in INTERRUPT_PROBES]
+        return run_interrupt_job(job, [ops[i] for i in INTERRUPT_X], probes, run_case, CONCUR_FILES)
     if job["part"] == "seq":
         from vf.runner import run_seq_job
         return run_seq_job(job, seq_ops(job), run_case, depth=3 if job["tier"] == "quick" else 4)
